@@ -36,6 +36,26 @@ def exc_name(e):
     return None if e is None else type(e).__name__
 
 
+class Quota:
+    """Per-shard quota for input classes that are *known* to violate (recorded
+    findings). The worker forwards at most 200 violating cases per shard to the
+    coordinator; without a quota the known mechanisms (several % of the cases)
+    would use up those slots within the first second of a run and a *new*
+    violation later in the run would never be reported. The first `k` cases of
+    each such class still run and are reported as KNOWN-FINDING."""
+
+    def __init__(self, k=40):
+        self.k = k
+        self.n = {}
+
+    def admit(self, keys):
+        if any(self.n.get(key, 0) >= self.k for key in keys):
+            return False
+        for key in keys:
+            self.n[key] = self.n.get(key, 0) + 1
+        return True
+
+
 # --------------------------------------------------------------------------
 # character pools
 # --------------------------------------------------------------------------
@@ -465,7 +485,7 @@ def classify_number(text):
             if sub[0] == "num":
                 # "Non-ASCII whitespace characters ... are treated as any other character"
                 return ("not", {"uspace"})
-            return sub if sub[0] == "grey" else ("not", {"uspace-nonnum"})
+            return sub if sub[0] == "grey" else ("not", set(sub[1]) | {"uspace-nonnum"})
         if any(c.isdigit() or c.isdecimal() or c.isnumeric() for c in text if not c.isascii()):
             return ("grey", "non-ascii-digit")
         if any(c.isspace() for c in text if not c.isascii()):
@@ -500,7 +520,9 @@ def classify_number(text):
             feats.add("sep-after-sign")
         return ("not", feats)
     if not (body[0].isdigit() or body[0] == "."):
-        if _RE_CPLX_BAREJ.match(body):
+        # `j` is "understood by the constructor for complex" (1j) yet Hy reads it
+        # as a symbol; neither it nor `j_` / `J,,` (separators after j) is gated
+        if _RE_CPLX_BAREJ.match(body.replace("_", "").replace(",", "")):
             return ("grey", "bare-j")
         return ("not", feats)
     # separator placement
@@ -607,7 +629,7 @@ def string_body(rng, maxitems=10):
     return "".join(items), feats
 
 
-_DELIMS = ["", "", "", "=", "==", "===", "foo", "a b", "|", "'", '"', "\n", " ", "\u03bb",
+_DELIMS = [""] * 10 + ["=", "==", "===", "foo", "a b", "|", "'", '"', "\n", " ", "\u03bb",
            "\U0001f991", "x-y", "F", "g", "t", "t-x", "fx", "-f", "ff", "f_", "#", "(", ")",
            ";", "\\", "{", "}", "{x}", "a\rb", "\r", "\t", "\x00", "\ud800", "--", "=*="]
 
